@@ -59,7 +59,7 @@ with stmt_size (s : stmt) : Z :=
   match s with
   | SIf _ _ t e => 1 + block_size t + block_size e
   | SSwitch _ _ cs d => 1 + cases_size cs + block_size d
-  | SLoop _ _ _ b => 1 + block_size b
+  | SLoop _ _ _ b => 2 + block_size b
   | _ => 1
   end
 with cases_size (cs : cases) : Z :=
